@@ -260,8 +260,12 @@ func isWriteCall(p *Prog, ins ssa.Instruction) bool {
 	if f == nil || p.InModule(f) {
 		return false
 	}
-	if f.Signature.Recv() != nil && (f.Name() == "Write" || f.Name() == "WriteString") {
-		return true
+	if f.Signature.Recv() != nil {
+		switch f.Name() {
+		case "Write", "WriteString", "WriteByte", "WriteRune", "ReadFrom", "Flush", "Sync":
+			// Flush/Sync push buffered output to the underlying writer
+			return true
+		}
 	}
 	if f.Object() != nil && f.Object().Pkg() != nil && f.Object().Pkg().Path() == "fmt" && strings.HasPrefix(f.Name(), "Fprint") {
 		return true
@@ -615,6 +619,14 @@ func (p *Prog) checkJoin(F *ssa.Function, g *ssa.Go) joinResult {
 			ok := true
 			eachInstr(body, func(ins ssa.Instruction) {
 				if ins == s.ins {
+					return
+				}
+				if _, isDefer := ins.(*ssa.Defer); isDefer {
+					// deferred calls run last-in first-out: a deferred write registered
+					// before the deferred signal runs after it
+					if p.insReachesWrite(ins) && !instrDominates(s.ins, ins) {
+						ok = false
+					}
 					return
 				}
 				if p.insReachesWrite(ins) && !instrDominates(s.ins, ins) {
